@@ -1,5 +1,6 @@
 import ConduitModel.Driver.Dlq
 import ConduitModel.Driver.Funnel
+import ConduitModel.Driver.Arbiter
 
 /-
 `driver <component>` : reads cases from stdin (one per line), writes one result line per case.
@@ -12,6 +13,7 @@ def component (name : String) : Option (String → String) :=
   | "dlqwindow" => some dlqLine
   | "funnel" => some funnelLine
   | "funnelmon" => some funnelMonLine
+  | "arbiter" => some arbiterLine
   | _ => none
 
 partial def loop (h : IO.FS.Stream) (out : IO.FS.Stream) (f : String → String) : IO Unit := do
